@@ -309,6 +309,7 @@ func (e *Engine) callMods(fn *ssa.Function, call *ssa.CallCommon, ms *ModSet, fr
 		name := invokeName(call)
 		if c := e.db.Contracts[name]; c != nil {
 			e.contractMods(c, nil, ms)
+			e.writesThroughIface(c, call, ms)
 			return
 		}
 		// repo interface: union over implementers
@@ -376,6 +377,24 @@ func (e *Engine) contractMods(c *Contract, fn *ssa.Function, ms *ModSet) {
 	}
 	for _, m := range c.Havocs {
 		ms.addHeap(m, modAny)
+	}
+	for _, w := range c.Writes {
+		t := e.paramTypeOf(c, fn, w)
+		if t == nil {
+			continue
+		}
+		et := derefType(t)
+		if et == nil {
+			continue
+		}
+		if isStruct(et) {
+			u := et.Underlying().(*types.Struct)
+			for i := 0; i < u.NumFields(); i++ {
+				ms.addHeap(fieldHeapKey(et, i), modAny)
+			}
+		} else {
+			ms.addHeap(plainHeapKey(et), modAny)
+		}
 	}
 	if !c.HasMod && !c.Assumed && fn != nil && len(fn.Blocks) > 0 && isRepoFn(fn) {
 		ms.union(e.modSetOf(fn), false)
@@ -496,5 +515,68 @@ func (f *Frame) applyModSetFrame(st *State, pre *State, ms *ModSet, frameMark *T
 		nc := fresh("clock", sortInt)
 		f.addHyp(tTrue(), tGe(nc, pre.clock))
 		st.clock = nc
+	}
+}
+
+// paramTypeOf resolves the type of a named parameter of a contracted function or interface method.
+func (e *Engine) paramTypeOf(c *Contract, fn *ssa.Function, name string) types.Type {
+	if fn == nil {
+		fn = e.fnByName[c.Func]
+	}
+	if fn != nil {
+		for _, p := range fn.Params {
+			if p.Name() == name {
+				return p.Type()
+			}
+		}
+	}
+	// interface method: "(pkg.Iface).Method"
+	if i := strings.LastIndex(c.Func, ")."); i > 0 && strings.HasPrefix(c.Func, "(") {
+		if t := e.lookupTypeByName(c.Func[1:i]); t != nil {
+			if it, ok := t.Underlying().(*types.Interface); ok {
+				for j := 0; j < it.NumMethods(); j++ {
+					m := it.Method(j)
+					if m.Name() == c.Func[i+2:] {
+						sig := m.Type().(*types.Signature)
+						for k := 0; k < sig.Params().Len(); k++ {
+							if sig.Params().At(k).Name() == name {
+								return sig.Params().At(k).Type()
+							}
+						}
+					}
+				}
+			}
+		}
+	}
+	return nil
+}
+
+// writesThroughIface: `writes p` where p is an interface-typed destination: use the static type of the
+// value boxed at this call site.
+func (e *Engine) writesThroughIface(c *Contract, call *ssa.CallCommon, ms *ModSet) {
+	if len(c.Writes) == 0 {
+		return
+	}
+	sig := call.Signature()
+	for _, w := range c.Writes {
+		for i := 0; i < sig.Params().Len() && i < len(call.Args); i++ {
+			if sig.Params().At(i).Name() != w || !isInterface(sig.Params().At(i).Type()) {
+				continue
+			}
+			if mi, ok := call.Args[i].(*ssa.MakeInterface); ok {
+				if et := derefType(mi.X.Type()); et != nil {
+					if isStruct(et) {
+						u := et.Underlying().(*types.Struct)
+						for j := 0; j < u.NumFields(); j++ {
+							ms.addHeap(fieldHeapKey(et, j), modAny)
+						}
+					} else {
+						ms.addHeap(plainHeapKey(et), modAny)
+					}
+				}
+			} else {
+				ms.notes["writes through an interface destination of unknown static type"] = true
+			}
+		}
 	}
 }
